@@ -747,7 +747,7 @@ func hpeer(w http.ResponseWriter, p *peer.Peer, t *tor.Torrent) {
 	} else {
 		addr = a.String()
 	}
-	fmt.Fprintf(w, "<tr><td>%v</td>", addr)
+	fmt.Fprintf(w, "<tr><td>%v</td>", html.EscapeString(addr))
 
 	stats := p.GetStats()
 	if stats == nil {
@@ -888,7 +888,7 @@ func hknown(w http.ResponseWriter, kp *known.Peer, t *tor.Torrent) {
 	}
 
 	fmt.Fprintf(w, "<tr><td>%v</td><td>%v</td><td>%v</td><td>%v</td></tr>\n",
-		kp.Addr.String(), flags,
+		html.EscapeString(kp.Addr.String()), flags,
 		html.EscapeString(peerVersion(kp.Id, kp.Version)), kp.Id,
 	)
 }
